@@ -27,11 +27,10 @@ def main():
         crates += ctx["plan"].crates(part)
     facts.engine_a_facts("on", crates, ctx["api"])
     build.build("loops", ctx["plan"].loop_crates())
-    try:
-        from vf import run_e
-        run_e.prime("quick")
-    except ImportError:
-        pass
+    from vf import run_e, engine_s, engine_t
+    run_e.prime("quick")
+    engine_s.mir_text()
+    engine_t.run(C.Report("C04", "quick"), "quick", "prime")
     print("setup done in %.1fs" % (time.time() - t0))
     return 0
 
